@@ -10,15 +10,30 @@ package main
 // expects has fired, so every outcome is logically determined - timing is never a verdict.
 //
 //   Code vs Impl : outcome and (sp, fp, halt, running, startCount, halt-before-start,
-//                  fp-at-leaf) of every invocation against the Lean model (oracle).
+//                  fp-at-leaf, len(vm.modules), whether the leaf / the module's top-level code
+//                  was reached) of every invocation against the Lean model (oracle).
 //   Code vs Spec : the outcome of invocation k on the shared VM against the outcome of the
 //                  same invocation on a FRESH VM with the same globals (len(acc)), where
-//                  events concerning other invocations' contexts do not exist.
+//                  events concerning other invocations' contexts do not exist; and the
+//                  result objects handed out by earlier invocations still read the same
+//                  after all later invocations of the history.
+//
+// Three things make storage that survives an invocation visible in OUTCOMES (not only in
+// registers): (1) RunCode may re-supply the very *compiler.Code object of an earlier
+// invocation (`runcode@j`; the script reads its parameters from the host, so one code object
+// is run with every behaviour); (2) "headroom probes": RunCode invocations whose pending
+// operands fill the operand stack to the last slot a fresh VM has - one slot leaked by
+// anything earlier makes the probe overflow; (3) scripts import a FILE module through the
+// VM's importer (fmod, LocalImporter over a temp dir) and an invocation may end - error,
+// panic, overflow, own cancellation - while the module's top-level code is executing; later
+// invocations import the module again and check that it is completely initialised.
 
 import (
 	"context"
 	"errors"
 	"fmt"
+	"os"
+	"path/filepath"
 	"runtime"
 	"strconv"
 	"strings"
@@ -26,6 +41,7 @@ import (
 
 	"github.com/risor-io/risor/builtins"
 	"github.com/risor-io/risor/compiler"
+	"github.com/risor-io/risor/importer"
 	"github.com/risor-io/risor/object"
 	"github.com/risor-io/risor/parser"
 	"github.com/risor-io/risor/vm"
@@ -48,6 +64,9 @@ type c07Inv struct {
 	Bump   int
 	Bg     bool
 	Imp    bool // the script first executes `import hostmod` (a module supplied as a global)
+	FImp   bool // the script then executes `import fmod` (a file module loaded by the VM's importer)
+	MFail  bool // the ending Beh happens inside fmod's top-level code (when that code is executed)
+	Same   int  // RunCode: 1+index of the earlier RunCode invocation whose *compiler.Code is re-supplied; 0 = newly compiled
 	Pre    []int
 	During []int
 }
@@ -68,11 +87,72 @@ func (v c07Inv) String() string {
 	if v.Bg {
 		bg = "1"
 	}
-	imp := "0"
-	if v.Imp {
-		imp = "1"
+	imp := strconv.Itoa(c07B(v.Imp) + 2*c07B(v.FImp))
+	if v.MFail {
+		imp += "m"
 	}
-	return fmt.Sprintf("%s:%s:%d:%d:%d:%d:%s:%s:%s:%s", v.Kind, v.Beh, v.Depth, v.Pend, v.V, v.Bump, bg, imp, c07Ids(v.Pre), c07Ids(v.During))
+	kind := v.Kind
+	if v.Same > 0 {
+		kind += "@" + strconv.Itoa(v.Same-1)
+	}
+	return fmt.Sprintf("%s:%s:%d:%d:%d:%d:%s:%s:%s:%s", kind, v.Beh, v.Depth, v.Pend, v.V, v.Bump, bg, imp, c07Ids(v.Pre), c07Ids(v.During))
+}
+
+// c07Canon makes a history well formed: only RunCode can re-supply a code object, only one
+// compiled for an EARLIER RunCode invocation, and the pending operands are part of that code;
+// "ending inside the module" needs the module import.
+func c07Canon(h []c07Inv) []c07Inv {
+	for k := range h {
+		v := &h[k]
+		if v.Same > 0 && (v.Kind != "runcode" || v.Same-1 >= k || h[v.Same-1].Kind != "runcode") {
+			v.Same = 0
+		}
+		if v.Same > 0 {
+			v.Pend = h[v.Same-1].Pend
+			if h[v.Same-1].Same > 0 {
+				v.Same = h[v.Same-1].Same // name the invocation the object was compiled for
+			}
+		}
+		if c07MaxPend > 0 && v.Pend == c07MaxPend {
+			// a headroom probe has the exact shape its bound was measured with; it is never cut
+			// short by a stale watcher (that would leave its operands on the stack: the known
+			// finding, whose effect on the stack BOUND the model does not cover)
+			v.Kind, v.Beh, v.Depth, v.Bump, v.Imp, v.FImp, v.During = "runcode", "normal", 0, 0, false, false, nil
+		}
+		if !v.FImp {
+			v.MFail = false
+		}
+	}
+	return h
+}
+
+// c07MaxPend is the largest number of pending operands with which the probe script
+// (RunCode, normal ending, depth 0, no appends, no imports) succeeds on a FRESH VM: it fills
+// the operand stack to its last slot.  Measured on the real VM, once per process.
+var c07MaxPend int
+
+func c07ProbeInv(pend int) c07Inv {
+	return c07Inv{Kind: "runcode", Beh: "normal", Pend: pend, V: 1}
+}
+
+func c07MeasureMaxPend() int {
+	ok := func(p int) bool { return c07Reference(0, c07ProbeInv(p), 0, false) == "ok=1" }
+	if !ok(0) || !ok(8) {
+		return 0
+	}
+	lo, hi := 8, 2048 // ok(lo), !ok(hi): the operand stack has 1024 slots
+	if ok(hi) {
+		return 0
+	}
+	for hi-lo > 1 {
+		mid := (lo + hi) / 2
+		if ok(mid) {
+			lo = mid
+		} else {
+			hi = mid
+		}
+	}
+	return lo
 }
 
 func c07Key(h []c07Inv) string {
@@ -83,7 +163,38 @@ func c07Key(h []c07Inv) string {
 	return strings.Join(ss, " ")
 }
 
-var c07GlobalNames = []string{"hook", "boom", "acc", "len", "hostmod"}
+var c07GlobalNames = []string{"hook", "boom", "acc", "len", "hostmod", "p", "modhook"}
+
+// the file module: its top-level code calls back into the host two script frames deep
+// (modhook), then - if the host says so - fails, and only then assigns `last`
+const c07ModSource = `func mover(n) { return mover(n+1) }
+func mrec(n) {
+  if n > 0 { return mrec(n-1) }
+  return modhook()
+}
+first := 1
+m := mrec(2)
+if m == 1 { first + "s" }
+if m == 2 { boom() }
+if m == 3 { mover(0) }
+last := 42
+`
+
+var c07ModDir string
+
+func c07ModuleDir() string {
+	if c07ModDir == "" {
+		d, err := os.MkdirTemp("", "verif-c07-")
+		if err != nil {
+			panic(err)
+		}
+		if err := os.WriteFile(filepath.Join(d, "fmod.risor"), []byte(c07ModSource), 0o644); err != nil {
+			panic(err)
+		}
+		c07ModDir = d
+	}
+	return c07ModDir
+}
 
 // c07World is one real VM with its host: contexts, the host global acc, the hook.
 type c07World struct {
@@ -96,17 +207,19 @@ type c07World struct {
 	hasCode   bool
 	curName   string // suffix of the act/over functions defined in the active code
 	isRef     bool   // fresh reference VM: other invocations' contexts do not exist here
+	codes     map[int]*compiler.Code // RunCode: the code object compiled for invocation k
 	// per invocation
 	k        int
 	inv      c07Inv
 	leafFP   int
 	leafRun  bool
 	hookHits int
+	modHits  int
 	timeouts int
 }
 
-func c07NewWorld(accLen int, isRef bool) *c07World {
-	w := &c07World{armed: map[int]bool{}, cancelled: map[int]bool{}, isRef: isRef}
+func c07NewWorld(accLen int, isRef bool, withImporter bool) *c07World {
+	w := &c07World{armed: map[int]bool{}, cancelled: map[int]bool{}, isRef: isRef, codes: map[int]*compiler.Code{}}
 	items := make([]object.Object, accLen)
 	for i := range items {
 		items[i] = object.NewInt(0)
@@ -118,14 +231,53 @@ func c07NewWorld(accLen int, isRef bool) *c07World {
 		"acc":     w.acc,
 		"len":     builtins.Builtins()["len"],
 		"hostmod": object.NewBuiltinsModule("hostmod", map[string]object.Object{"one": object.NewInt(1)}),
+		"p":       object.NewBuiltin("p", func(ctx context.Context, args ...object.Object) object.Object { return w.param(args) }),
+		"modhook": object.NewBuiltin("modhook", func(ctx context.Context, args ...object.Object) object.Object { return w.modhook() }),
 	}
 	c, err := compiler.New(compiler.WithGlobalNames(c07GlobalNames))
 	if err != nil {
 		panic(err)
 	}
 	w.comp = c
-	w.m = vm.New(c.Code(), vm.WithGlobals(globals))
+	opts := []vm.Option{vm.WithGlobals(globals)}
+	if withImporter {
+		// one importer per VM: nothing is shared between the reused VM and the reference VMs
+		opts = append(opts, vm.WithImporter(importer.NewLocalImporter(importer.LocalImporterOptions{
+			GlobalNames: c07GlobalNames, SourceDir: c07ModuleDir()})))
+	}
+	w.m = vm.New(c.Code(), opts...)
 	return w
+}
+
+// param: the script of a Run/RunCode invocation reads its arguments from the host, so that
+// one code object can be re-run with every behaviour
+func (w *c07World) param(args []object.Object) object.Object {
+	i := -1
+	if len(args) == 1 {
+		if n, ok := args[0].(*object.Int); ok {
+			i = int(n.Value())
+		}
+	}
+	v := w.inv
+	ps := []int{c07Mode(v.Beh), v.Depth, v.V, v.Bump, c07Im(v)}
+	if i < 0 || i >= len(ps) {
+		return object.Errorf("p: bad index")
+	}
+	return object.NewInt(int64(ps[i]))
+}
+
+func c07Im(v c07Inv) int { return c07B(v.Imp) + 2*c07B(v.FImp) }
+
+// modhook is called by fmod's top-level code, two module frames deep
+func (w *c07World) modhook() object.Object {
+	w.modHits++
+	if !w.inv.MFail {
+		return object.NewInt(0)
+	}
+	if w.inv.Beh == "selfcancel" && !w.inv.Bg {
+		w.cancel(w.k)
+	}
+	return object.NewInt(int64(c07Mode(w.inv.Beh)))
 }
 
 // cancel cancels context i; when a watcher of this VM is armed for it, wait until it has
@@ -196,7 +348,11 @@ func c07Defs(s string) string {
 	return fmt.Sprintf(`func over%[1]s(n) { return over%[1]s(n+1) }
 func act%[1]s(mode, n, v, b, im) {
   if n > 0 { return act%[1]s(mode, n-1, v, b, im) }
-  if im == 1 { import hostmod }
+  if im == 1 || im == 3 { import hostmod }
+  if im >= 2 {
+    import fmod
+    if fmod.last != 42 { return "half-initialised module" }
+  }
   for i := 0; i < b; i++ { acc.append(v) }
   hook()
   if mode == 1 { return v + "s" }
@@ -227,7 +383,7 @@ func c07B(b bool) int {
 }
 
 func c07Expr(suffix string, v c07Inv) string {
-	call := fmt.Sprintf("act%s(%d, %d, %d, %d, %d)", suffix, c07Mode(v.Beh), v.Depth, v.V, v.Bump, c07B(v.Imp))
+	call := fmt.Sprintf("act%s(p(0), p(1), p(2), p(3), p(4))", suffix)
 	if v.Pend == 0 {
 		return call
 	}
@@ -254,7 +410,7 @@ func c07ErrClass(err error) string {
 		return "err=overflow"
 	case strings.Contains(msg, "type error: unsupported operation"):
 		return "err=runtime"
-	case strings.Contains(msg, "imports are disabled"):
+	case strings.Contains(msg, "imports are disabled"), strings.Contains(msg, `module "hostmod" not found`):
 		return "err=import"
 	case strings.Contains(msg, "already running"):
 		return "err=busy"
@@ -321,7 +477,11 @@ type c07Obs struct {
 	PreHalt    int32
 	LeafFP     int
 	HookHits   int
+	ModHits    int
+	Modules    int
 	IPCont     string // Run only: did vm.ip already point at the new snippet before SetIP
+	Result     object.Object // the object a successful invocation handed to the host
+	ResultPend int
 }
 
 func (o c07Obs) stateString() string {
@@ -337,7 +497,7 @@ func (o c07Obs) stateString() string {
 // invoke executes invocation k on this world's VM.
 func (w *c07World) invoke(k int, v c07Inv) (obs c07Obs) {
 	w.k, w.inv = k, v
-	w.leafFP, w.leafRun, w.hookHits = -1, false, 0
+	w.leafFP, w.leafRun, w.hookHits, w.modHits = -1, false, 0, 0
 	if !w.isRef {
 		for _, i := range v.Pre {
 			if i < k {
@@ -368,7 +528,15 @@ func (w *c07World) invoke(k int, v c07Inv) (obs c07Obs) {
 		}()
 		switch v.Kind {
 		case "runcode":
-			code := c07Compile(nil, c07Defs(suffix)+c07Expr(suffix, v))
+			var code *compiler.Code
+			if v.Same > 0 && !w.isRef && w.codes[v.Same-1] != nil {
+				// the very object an earlier invocation ran
+				code = w.codes[v.Same-1]
+				suffix = "_" + strconv.Itoa(v.Same-1)
+			} else {
+				code = c07Compile(nil, c07Defs(suffix)+c07Expr(suffix, v))
+			}
+			w.codes[k] = code
 			w.curName, w.hasCode = suffix, true
 			err = w.m.RunCode(ctx, code)
 			if err == nil {
@@ -421,7 +589,7 @@ func (w *c07World) invoke(k int, v c07Inv) (obs c07Obs) {
 				return
 			}
 			result, err = w.m.Call(ctx, fn, []object.Object{object.NewInt(int64(c07Mode(v.Beh))),
-				object.NewInt(int64(v.Depth)), object.NewInt(int64(v.V)), object.NewInt(int64(v.Bump)), object.NewInt(int64(c07B(v.Imp)))})
+				object.NewInt(int64(v.Depth)), object.NewInt(int64(v.V)), object.NewInt(int64(v.Bump)), object.NewInt(int64(c07Im(v)))})
 		}
 	}()
 	if err != nil {
@@ -432,19 +600,20 @@ func (w *c07World) invoke(k int, v c07Inv) (obs c07Obs) {
 			pend = 0
 		}
 		obs.Outcome = c07Value(result, pend)
+		obs.Result, obs.ResultPend = result, pend
 	}
 	st := w.m.VerifState()
 	obs.SP, obs.FP, obs.Halt, obs.Running, obs.StartCount = st.SP, st.FP, st.Halt, st.Running, st.StartCount
-	obs.LeafFP, obs.HookHits = w.leafFP, w.hookHits
+	obs.LeafFP, obs.HookHits, obs.ModHits, obs.Modules = w.leafFP, w.hookHits, w.modHits, st.Modules
 	return obs
 }
 
 // c07Reference: the same invocation on a fresh VM whose host global has the same value.
-func c07Reference(k int, v c07Inv, accLen int) string {
+func c07Reference(k int, v c07Inv, accLen int, withImporter bool) string {
 	base := runtime.NumGoroutine()
-	w := c07NewWorld(accLen, true)
+	w := c07NewWorld(accLen, true, withImporter)
 	defer w.release(base)
-	v.Pre, v.During = nil, nil
+	v.Pre, v.During, v.Same = nil, nil, 0
 	return w.invoke(k, v).Outcome
 }
 
@@ -453,7 +622,16 @@ func c07Nontrivial(h []c07Inv) bool {
 		return false
 	}
 	for _, v := range h {
-		if v.Beh != "normal" || len(v.Pre) > 0 || len(v.During) > 0 {
+		if v.Beh != "normal" || len(v.Pre) > 0 || len(v.During) > 0 || v.Same > 0 || v.FImp || (c07MaxPend > 0 && v.Pend == c07MaxPend) {
+			return true
+		}
+	}
+	return false
+}
+
+func c07UsesImporter(h []c07Inv) bool {
+	for _, v := range h {
+		if v.FImp {
 			return true
 		}
 	}
@@ -469,12 +647,12 @@ type c07Runner struct {
 	last  string
 }
 
-func (r *c07Runner) reference(k int, v c07Inv, accLen int) string {
-	key := fmt.Sprintf("%s:%s:%d:%d:%d:%d:%v:%v:%d", v.Kind, v.Beh, v.Depth, v.Pend, v.V, v.Bump, v.Bg, v.Imp, accLen)
+func (r *c07Runner) reference(k int, v c07Inv, accLen int, withImporter bool) string {
+	key := fmt.Sprintf("%s:%s:%d:%d:%d:%d:%v:%v:%v:%v:%v:%d", v.Kind, v.Beh, v.Depth, v.Pend, v.V, v.Bump, v.Bg, v.Imp, v.FImp, v.MFail, withImporter, accLen)
 	if s, ok := r.refs[key]; ok {
 		return s
 	}
-	s := c07Reference(k, v, accLen)
+	s := c07Reference(k, v, accLen, withImporter)
 	r.refs[key] = s
 	r.nRef++
 	return s
@@ -483,6 +661,8 @@ func (r *c07Runner) reference(k int, v c07Inv, accLen int) string {
 // runHistory executes one history on a real VM and compares it with the model and the Spec.
 func (r *c07Runner) runHistory(h []c07Inv) {
 	e := r.e
+	h = c07Canon(h)
+	withImporter := c07UsesImporter(h)
 	key := c07Key(h)
 	e.R.Case(key, c07Nontrivial(h))
 	e.R.H("history_length", strconv.Itoa(len(h)))
@@ -496,22 +676,40 @@ func (r *c07Runner) runHistory(h []c07Inv) {
 		return
 	}
 	base := runtime.NumGoroutine()
-	w := c07NewWorld(0, false)
+	w := c07NewWorld(0, false, withImporter)
 	defer w.release(base)
+	type kept struct {
+		k        int
+		o        object.Object
+		pend     int
+		rendered string
+	}
+	var results []kept
+	defer func() {
+		// results handed to the host by earlier invocations are not changed by later ones
+		for _, x := range results {
+			if now := c07Value(x.o, x.pend); now != x.rendered {
+				e.R.Spec(key, fmt.Sprintf("the result of invocation %d (%s) was %s when it returned and reads %s after the later invocations of the history", x.k, h[x.k].String(), x.rendered, now), "")
+			}
+		}
+	}()
 	for k, v := range h {
 		r.nInv++
 		accBefore := len(w.acc.Value())
 		obs := w.invoke(k, v)
 		m := strings.Split(reply[k+1], ",")
-		if len(m) != 11 {
+		if len(m) != 14 {
 			e.R.Mismatch(key, "-", reply[k+1], "malformed oracle reply")
 			return
 		}
 		modelState := strings.Join(m[:7], ",")
 		modelSpec, modelStale, modelLeafFP, modelImportFails := m[7], m[8] == "1", m[9], m[10] == "1"
-		wantHook := 1
-		if m[0] == "err=import" {
-			wantHook = 0
+		wantHook, wantMod, modelModules := 0, 0, m[13]
+		if m[11] == "1" {
+			wantHook = 1
+		}
+		if m[12] == "1" {
+			wantMod = 1
 		}
 		tag := fmt.Sprintf("%s [invocation %d]", key, k)
 		e.R.H("kind", v.Kind)
@@ -521,6 +719,14 @@ func (r *c07Runner) runHistory(h []c07Inv) {
 		e.R.H("pending_operands", strconv.Itoa(v.Pend))
 		e.R.H("context", map[bool]string{true: "background", false: "cancellable"}[v.Bg])
 		e.R.H("imports_global_module", strconv.FormatBool(v.Imp))
+		e.R.H("imports_file_module", map[bool]string{false: "no", true: map[bool]string{false: "yes", true: "yes, ending inside its top-level code"}[v.MFail]}[v.FImp])
+		if v.FImp {
+			e.R.H("file_module_code_executed_x_where_the_run_ends", fmt.Sprintf("executed=%d leaf-reached=%d", wantMod, wantHook))
+		}
+		if v.Kind == "runcode" {
+			e.R.H("runcode_code_object", map[bool]string{false: "newly compiled", true: "re-supplied object of an earlier invocation"}[v.Same > 0])
+			e.R.H("runcode_stack_headroom_probe", strconv.FormatBool(c07MaxPend > 0 && v.Pend == c07MaxPend))
+		}
 		e.R.H("cancel_placement", fmt.Sprintf("before=%d during=%d", len(v.Pre), len(v.During)))
 		e.R.H("outcome_on_shared_vm", strings.SplitN(obs.Outcome, "=", 2)[0]+"="+c07OutcomeClass(obs.Outcome))
 		if obs.IPCont != "" {
@@ -538,12 +744,18 @@ func (r *c07Runner) runHistory(h []c07Inv) {
 		} else if wantHook == 1 && (strconv.Itoa(obs.LeafFP) != modelLeafFP || !w.leafRun) {
 			e.R.Mismatch(tag, fmt.Sprintf("fp=%d running=%v at the leaf", obs.LeafFP, w.leafRun), "fp="+modelLeafFP+" running=true", "state while the host callback runs")
 		}
+		if obs.ModHits != wantMod {
+			e.R.Mismatch(tag, fmt.Sprintf("module top-level code executed %d times", obs.ModHits), fmt.Sprintf("executed %d times", wantMod), "whether `import fmod` executes the module's code (it must, unless a completely initialised module is cached)")
+		}
+		if strconv.Itoa(obs.Modules) != modelModules {
+			e.R.Mismatch(tag, fmt.Sprintf("len(vm.modules)=%d", obs.Modules), "len(vm.modules)="+modelModules, "import cache after the invocation")
+		}
 		if w.timeouts > 0 {
 			e.R.Mismatch(tag, "watcher did not set halt within 5s", "halt=1 after cancel", "an armed watcher must fire after its context is cancelled")
 			w.timeouts = 0
 		}
 		// Code vs Spec: the same invocation on a fresh VM with the same globals
-		ref := r.reference(k, v, accBefore)
+		ref := r.reference(k, v, accBefore, withImporter)
 		if ref != modelSpec {
 			e.R.Mismatch(tag+" (fresh VM)", ref, modelSpec, "Lean Spec vs the real outcome on a fresh VM")
 		}
@@ -558,6 +770,23 @@ func (r *c07Runner) runHistory(h []c07Inv) {
 			e.R.H("spec_violation_shape", v.Kind+"/"+v.Beh+" -> "+c07OutcomeClass(obs.Outcome))
 		}
 		r.last = obs.Outcome
+		if obs.Result != nil && k+1 < len(h) {
+			results = append(results, kept{k, obs.Result, obs.ResultPend, obs.Outcome})
+		}
+		// the host global: exactly the appends of the invocations that reached their leaf
+		wantAcc := accBefore
+		if wantHook == 1 {
+			wantAcc += v.Bump
+		}
+		items := w.acc.Value()
+		accOK := len(items) == wantAcc
+		for i := accBefore; accOK && i < wantAcc; i++ {
+			n, isInt := items[i].(*object.Int)
+			accOK = isInt && n.Value() == int64(v.V)
+		}
+		if !accOK {
+			e.R.Mismatch(tag, fmt.Sprintf("len(acc)=%d", len(items)), fmt.Sprintf("len(acc)=%d, the new items = %d", wantAcc, v.V), "host global after the invocation (appends happen iff the leaf is reached)")
+		}
 	}
 }
 
@@ -577,6 +806,9 @@ func c07OutcomeClass(o string) string {
 func (r *c07Runner) lastOutcome(h []c07Inv, k int) string { return r.last }
 
 var c07Kinds = []string{"run", "runcode", "call"}
+
+// (import hostmod, import fmod, ending inside fmod's top-level code)
+var c07ImpVariants = [][3]bool{{false, false, false}, {true, false, false}, {false, true, false}, {false, true, true}}
 var c07Behs = []string{"normal", "err", "panic", "overflow", "selfcancel"}
 
 // placements of earlier-context cancellation for invocation k: none, or one earlier
@@ -598,6 +830,18 @@ func (r *c07Runner) randInv(k int, rng *RNG) c07Inv {
 	v.Bump = rng.Intn(3)
 	v.Bg = rng.Chance(15)
 	v.Imp = rng.Chance(20)
+	if rng.Chance(35) {
+		v.FImp = true
+		v.MFail = rng.Chance(60)
+	}
+	if k > 0 && rng.Chance(40) {
+		// re-supply the code object of an earlier invocation (c07Canon drops impossible choices)
+		v.Kind = "runcode"
+		v.Same = 1 + rng.Intn(k)
+	}
+	if c07MaxPend > 0 && rng.Chance(8) {
+		v.Pend = c07MaxPend
+	}
 	if k > 0 {
 		// cancellation of earlier contexts: any subset, mostly small
 		for i := 0; i < k; i++ {
@@ -617,8 +861,19 @@ func (r *c07Runner) randInv(k int, rng *RNG) c07Inv {
 
 func c07_runC07(e *Env) {
 	r := &c07Runner{e: e, refs: map[string]string{}}
-	e.R.Rule = "case = one history (list of Run/RunCode/Call invocations with behaviour, depth, pending operands, global appends, context kind and the placements of cancel(ctx_i) of earlier contexts before/during each later invocation) executed on ONE real VM; every invocation is compared with the Lean Impl model (outcome + sp, fp, halt, running, startCount, halt before start, fp at the leaf) and with the same invocation on a fresh VM with the same globals (Spec). distinct = canonical history text; non-trivial = length >= 2 and at least one abnormal ending or one cancellation of an earlier context"
+	e.R.Rule = "case = one history (list of Run/RunCode/Call invocations with behaviour, depth, pending operands, global appends, context kind, the placements of cancel(ctx_i) of earlier contexts before/during each later invocation, whether RunCode re-supplies the *compiler.Code object of an earlier invocation (runcode@j), whether the script imports a global module and/or a file module through the VM's importer and whether the run ends inside that module's top-level code (imp 2m/3m); pending operands = the measured maximum make the invocation a stack-headroom probe) executed on ONE real VM; every invocation is compared with the Lean Impl model (outcome + sp, fp, halt, running, startCount, halt before start, fp at the leaf, len(vm.modules), leaf reached, module code executed) and with the same invocation on a fresh VM with the same globals and importer (Spec); after the history the result objects of all earlier successful invocations must still read as they did when returned (Spec), and the host global holds exactly the appends of the invocations that reached their leaf (Impl). distinct = canonical history text; non-trivial = length >= 2 and at least one abnormal ending, cancellation of an earlier context, re-supplied code object, file-module import or headroom probe"
 	t0 := time.Now()
+	defer func() {
+		if c07ModDir != "" {
+			os.RemoveAll(c07ModDir)
+		}
+	}()
+	c07MaxPend = c07MeasureMaxPend()
+	if c07MaxPend == 0 {
+		e.R.Mismatch("stack headroom probe", "no bound found", "the probe script succeeds with 8 and fails with 2048 pending operands on a fresh VM", "measuring the operand-stack headroom of a fresh VM")
+	}
+	e.R.Note("stack headroom probe: %d pending operands fill the operand stack of a fresh VM", c07MaxPend)
+	probe := func(same int) c07Inv { v := c07ProbeInv(c07MaxPend); v.Same = same; return v }
 
 	// 0. the committed witness of the known finding, always first
 	r.runHistory([]c07Inv{
@@ -632,12 +887,64 @@ func c07_runC07(e *Env) {
 		{Kind: "runcode", Beh: "normal", V: 4, Bump: 1, Imp: true},
 	})
 
+	// 0a. the smallest history that re-supplies a code object: the probe, then the probe's own
+	// *compiler.Code again
+	if c07MaxPend > 0 {
+		r.runHistory([]c07Inv{probe(0), probe(1)})
+	}
+
+	// 0d. stack headroom after every kind of invocation: X; probe / probe; X; the probe's own
+	// code object again / X; probe; the probe's object again.  0e. a file module whose
+	// top-level code was left in every possible way (X), then imported by Call / Run / RunCode
+	for _, kind := range c07Kinds {
+		for _, beh := range c07Behs {
+			for _, iv := range c07ImpVariants {
+				x := c07Inv{Kind: kind, Beh: beh, Depth: 2, Pend: 1, V: 5, Bump: 1, Imp: iv[0], FImp: iv[1], MFail: iv[2]}
+				if c07MaxPend > 0 {
+					r.runHistory([]c07Inv{x, probe(0)})
+					r.runHistory([]c07Inv{probe(0), x, probe(1)})
+					r.runHistory([]c07Inv{x, probe(0), probe(2)})
+					x2 := x
+					x2.Kind, x2.Same = "runcode", 1
+					r.runHistory([]c07Inv{probe(0), x2, probe(1)})
+				}
+				if iv[1] {
+					for _, k2 := range c07Kinds {
+						for _, b2 := range []string{"normal", "err", "selfcancel"} {
+							for _, mf := range []bool{false, true} {
+								y := c07Inv{Kind: k2, Beh: b2, Depth: 1, V: 6, Bump: 1, FImp: true, MFail: mf}
+								r.runHistory([]c07Inv{x, y})
+								r.runHistory([]c07Inv{x, x, y, y})
+							}
+						}
+					}
+				}
+			}
+		}
+	}
+
 	// 0b. one long RunCode-only history (1100 invocations, cheap endings, pending operands):
 	// storage that is not reset between runs shows up as exhaustion long before the end
 	{
 		long := make([]c07Inv, 1100)
 		for k := range long {
 			long[k] = c07Inv{Kind: "runcode", Beh: []string{"normal", "err", "panic", "normal"}[k%4], Depth: k % 3, Pend: (k / 4) % 3, V: 1 + k%7}
+			if k > 0 && k%5 == 0 {
+				long[k].Pre = []int{k - 1}
+			}
+		}
+		r.runHistory(long)
+	}
+
+	// 0c. the same, ONE code object supplied 1100 times (the script reads its behaviour from
+	// the host, so the object is run with normal, failing and panicking endings)
+	{
+		long := make([]c07Inv, 1100)
+		for k := range long {
+			long[k] = c07Inv{Kind: "runcode", Beh: []string{"normal", "err", "panic", "normal"}[k%4], Depth: k % 3, Pend: 1, V: 1 + k%7}
+			if k > 0 {
+				long[k].Same = 1
+			}
 			if k > 0 && k%5 == 0 {
 				long[k].Pre = []int{k - 1}
 			}
@@ -660,12 +967,30 @@ func c07_runC07(e *Env) {
 		for _, kind := range c07Kinds {
 			for _, beh := range c07Behs {
 				for _, pl := range c07Placements(k) {
-					for _, imp := range []bool{false, true} {
-						if imp && n == 3 && (beh == "overflow" || beh == "panic") {
+					for ivi, iv := range c07ImpVariants {
+						if ivi > 0 && n == 3 && (beh == "overflow" || beh == "panic") {
 							continue
 						}
-						v := c07Inv{Kind: kind, Beh: beh, Depth: depthAt[k], Pend: pendAt[k], V: 11 + 7*k, Bump: 1 + k%2, Imp: imp, Pre: pl[0], During: pl[1]}
+						if n == 3 {
+							// length 3: the file-module variants with every triple of kinds and
+							// endings but without cancellations of earlier contexts (those are
+							// combined with the module at length <= 2 and in the sampled part)
+							placed, fimp := len(pl[0]) > 0 || len(pl[1]) > 0, ivi >= 2
+							for _, u := range h {
+								placed = placed || len(u.Pre) > 0 || len(u.During) > 0
+								fimp = fimp || u.FImp
+							}
+							if placed && fimp {
+								continue
+							}
+						}
+						v := c07Inv{Kind: kind, Beh: beh, Depth: depthAt[k], Pend: pendAt[k], V: 11 + 7*k, Bump: 1 + k%2, Imp: iv[0], FImp: iv[1], MFail: iv[2], Pre: pl[0], During: pl[1]}
 						rec(append(h, v), n)
+						if kind == "runcode" && k > 0 && h[k-1].Kind == "runcode" && n < 3 {
+							// the previous invocation's code object, supplied again
+							v.Same = k
+							rec(append(h, v), n)
+						}
 					}
 				}
 			}
@@ -690,7 +1015,14 @@ func c07_runC07(e *Env) {
 									h[k].Depth, h[k].Pend, h[k].V, h[k].Bump = depthAt[k], pendAt[k], 11+7*k, 1+k%2
 									pl := Pick(e.Rng, c07Placements(k))
 									h[k].Pre, h[k].During = pl[0], pl[1]
-									h[k].Imp = e.Rng.Chance(25)
+									iv := c07ImpVariants[0]
+									if e.Rng.Chance(50) {
+										iv = Pick(e.Rng, c07ImpVariants[1:])
+									}
+									h[k].Imp, h[k].FImp, h[k].MFail = iv[0], iv[1], iv[2]
+									if k > 0 && h[k].Kind == "runcode" && e.Rng.Chance(40) {
+										h[k].Same = 1 + e.Rng.Intn(k)
+									}
 								}
 								r.runHistory(h)
 							}
